@@ -3198,7 +3198,8 @@ class KmipEngine(object):
                 "No data to be MACed"
             )
 
-        if managed_object.state != enums.State.ACTIVE:
+        if not hasattr(managed_object, 'state') or \
+                managed_object.state != enums.State.ACTIVE:
             raise exceptions.PermissionDenied(
                 "Object is not in a state that can be used for MACing."
             )
